@@ -10,7 +10,7 @@ for d in sorted(glob.glob(os.path.join(HERE, "seeded", "*"))):
         continue
     v = m.get("validated_by_me", {})
     esc = lambda s: str(s).replace("|", "\\|").replace("\n", " ")
-    rows.append(f"| `{os.path.basename(d)}` | {esc(m.get('property', ''))} | {esc(m.get('summary', ''))[:260]} | {esc(m.get('needs', ''))[:260]} | {', '.join(v.get('caught_by', [])) or 'NOT CAUGHT'} | {esc(v.get('note', ''))} |")
+    rows.append(f"| `{os.path.basename(d)}` | {esc(m.get('property', ''))} | {esc(m.get('summary', ''))[:260]} | {esc(m.get('needs', ''))[:260]} | {', '.join(v.get('caught_by', [])) or 'NOT CAUGHT'} | {esc(v.get('note', '') + ('; PATCH REBASED: ' + v['rebased'] if v.get('rebased') else '') + ('; NO LONGER APPLICABLE: ' + v['obsolete'] if v.get('obsolete') else ''))} |")
 p = os.path.join(HERE, "DESIGN.md")
 s = open(p).read()
 B, E = "<!-- seeded-table-begin -->", "<!-- seeded-table-end -->"
